@@ -24,6 +24,7 @@ from cirq.ops import (
     common_gates,
     dense_pauli_string as dps,
     gate_operation,
+    global_phase_op,
     op_tree,
     pauli_gates,
     pauli_string as ps,
@@ -364,6 +365,9 @@ class PauliStringPhasorGate(raw_types.Gate):
         # Only qubits on which the Pauli string is not the identity take part in the parity.
         support = [q for q, p in zip(qubits, self.dense_pauli_string.pauli_mask) if p]
         if not support:
+            # The whole space is the +1 eigenspace of an identity string.
+            if self.exponent_pos:
+                yield global_phase_op.global_phase_operation(1j ** (2 * self.exponent_pos))
             return
         any_qubit = support[0]
         to_z_ops = op_tree.freeze_op_tree(self._to_z_basis_ops(qubits))
